@@ -39,6 +39,7 @@ type c14Extra struct {
 	SchemaArticles  int    `json:"schema_articles"`
 	SchemaTitle     string `json:"schema_title"`      // headline/name of the first article that has one
 	SchemaRelAuthor string `json:"schema_rel_author"` // text of the first rel=author element that has text
+	SchemaAuthorPin string `json:"schema_author_pin"` // name of the Person author of the first article when it follows an unsupported-type author item
 	// IE
 	IETitle     string `json:"ie_title"`
 	IECopyright string `json:"ie_copyright"`
@@ -294,7 +295,13 @@ func genC14(t *rapid.T) *Case {
 				if g.chance(30, "scdm") {
 					b.WriteString(`<meta itemprop="dateModified" content="2020-02-03">`)
 				}
-				if g.chance(50, "scauthor") {
+				if ex.SchemaArticles == 1 && g.chance(20, "scshadowauthor") {
+					// the author first as an embedded item of a type the parser does not support (it
+					// provides nothing), then as a Person: the Person is the author
+					ex.SchemaAuthorPin = g.val("scp", 2)
+					b.WriteString(`<span itemprop="author" itemscope itemtype="http://schema.org/` + g.pick("unsupptype", "NewsMediaOrganization", "Brand", "Thing") + `"><span itemprop="name">` + g.val("scw", 2) + `</span></span>`)
+					b.WriteString(`<span itemprop="author" itemscope itemtype="http://schema.org/Person"><span itemprop="name">` + ex.SchemaAuthorPin + `</span></span>`)
+				} else if g.chance(50, "scauthor") {
 					b.WriteString(strOrItem("author"))
 				}
 				if g.chance(25, "sccreator") {
@@ -550,6 +557,9 @@ func checkC14(c *Case) (*Violation, caseInfo) {
 	} else if ex.SchemaRelAuthor != "" && sc.Author != ex.SchemaRelAuthor {
 		// without an article item the author can only come from rel=author
 		return violationf("C14 schemaorg-rel-author", "rel=author element with text %q (no article item) yields Author=%q", ex.SchemaRelAuthor, sc.Author), info
+	}
+	if ex.SchemaAuthorPin != "" && sc.Author != ex.SchemaAuthorPin {
+		return violationf("C14 schemaorg-author-after-unsupported-item", "the first article's author is given as an item of an unsupported type and then as the Person %q, but schema.org yields Author=%q", ex.SchemaAuthorPin, sc.Author), info
 	}
 	if ie.Title != ex.IETitle || ie.Copyright != ex.IECopyright || ie.Article.PublishedTime != ex.IEDate {
 		return violationf("C14 iereader-values", "IE markup (title %q, copyright %q, date %q) yields %s", ex.IETitle, ex.IECopyright, ex.IEDate, miJSON(ie)), info
